@@ -23,6 +23,8 @@ NonCodeReq(n, code) == [i |-> n, mode |-> "text", kind |-> "noncode", lang |-> c
 PairsOf(L2) == LET W == Words[L2] n == Len(W) IN [j \in 1..(n * n) |-> W[((j - 1) \div n) + 1] \o " " \o W[((j - 1) % n) + 1]]
 TextsOf(L2, salt) == LET W == Words[L2] IN
    [j \in 1..Len(W) |-> W[j]] \o AmbigParts[L2] \o BigParts[L2]
+   \o <<CoreWords[L2][2] \o " " \o SepWord[L2] \o " " \o ZeroWord[L2], CoreWords[L2][1] \o " " \o SepWord[L2] \o " " \o CoreWords[L2][2],
+        CoreWords[L2][7] \o " " \o SepWord[L2] \o " " \o ZeroWord[L2] \o " " \o CoreWords[L2][2], CoreWords[L2][2] \o " " \o SepWord[L2]>>    \* decimals
    \o [r \in 1..Params.randn |-> RandText(W, Seps, Start(Seed, salt, r), 2 + (r % 5))]
 WordSeqs(L2, salt) == LET W == Words[L2] IN
    [r \in 1..Params.randn |-> RandWords(W, Start(Seed, salt + 13, r), 2 + (r % 4))]
